@@ -8,6 +8,7 @@ import (
 	akashv1 "github.com/ovrclk/akash/pkg/client/clientset/versioned"
 	metricsutils "github.com/ovrclk/akash/util/metrics"
 	corev1 "k8s.io/api/core/v1"
+	netv1 "k8s.io/api/networking/v1"
 	"k8s.io/apimachinery/pkg/api/errors"
 	metav1 "k8s.io/apimachinery/pkg/apis/meta/v1"
 	"k8s.io/client-go/kubernetes"
@@ -44,7 +45,8 @@ func applyNetPolicies(ctx context.Context, kc kubernetes.Interface, b *netPolBui
 	}
 
 	for _, pol := range policies {
-		obj, err := kc.NetworkingV1().NetworkPolicies(b.ns()).Get(ctx, pol.Name, metav1.GetOptions{})
+		var obj *netv1.NetworkPolicy
+		obj, err = kc.NetworkingV1().NetworkPolicies(b.ns()).Get(ctx, pol.Name, metav1.GetOptions{})
 		metricsutils.IncCounterVecWithLabelValuesFiltered(kubeCallsCounter, "networking-policies-get", err, errors.IsNotFound)
 
 		switch {
